@@ -120,6 +120,12 @@ func genScript(g *fact.Gen) {
 	// the tokenizer itself, translated statement by statement (harness/internal/go2lean)
 	g.TranslateModule("ScriptGo", ts, []string{"TestScript.expand/func1", "TestScript.parse"}, "script",
 		[]string{"GIV.GoLib", "GIV.Model.ScriptParse"}, "GIV.Go.Script", filepath.Join(pinnedDir(), "ScriptGo.lean"))
+	// os.Expand and its helpers, translated from the STANDARD LIBRARY SOURCE of the toolchain this binary is
+	// built with (an absolute path: the file is outside /repo); GIV.Lemmas.OsExpandGo proves the translation
+	// equal to the model's osExpand for every string and every mapping
+	g.TranslateModule("OsExpandGo", filepath.Join(goroot(), "src", "os", "env.go"),
+		[]string{"isShellSpecialVar", "isAlphaNum", "getShellName", "Expand"}, "os",
+		[]string{"GIV.GoLib", "GIV.GoLibNil"}, "GIV.Go.Os", filepath.Join(pinnedDir(), "OsExpandGo.lean"))
 
 	emitU8List := func(name, doc string, pinned []byte, v []byte, ok bool, why string) {
 		if !ok {
